@@ -1,14 +1,16 @@
 """C20 - market closure is processed once, with results, for the right strategies; removal releases the market.
 
-Functions under contract (verified from the real AST):
-  BaseFlumine._process_close_market   two instances of the same function (isinstance(event.event, dict) is decided by the class
-                                      of the event payload):  #book  = a MarketBook closes the market (trading / simulation),
-                                                              #recorder = a raw streaming datum (dict) closes it (recorder mode)
+Functions under contract (verified from the real AST), tag C20:
+  BaseFlumine._process_close_market#book      a MarketBook closes the market, SIMULATION instance (clients.simulated)
+  BaseFlumine._process_close_market#recorder  a raw streaming datum (dict) closes it (recorder mode), SIMULATION instance
+      (isinstance(event.event, dict) is decided by the class of the event payload: two instances of the same function)
   BaseFlumine._remove_market
   BaseFlumine.log_control#c20         second instance of log_control whose calls are traced by ghost code (the base instance of
                                       c13_dispatch.py is shared with C13 / C14 / C11 and stays untouched)
   Market.close_market, Market.elapsed_seconds_closed, Market.open_market#c20, Markets.add_market#c20, Markets.remove_market,
-  SimulatedMiddleware.remove_market, BaseStrategy.remove_market
+  SimulatedMiddleware.remove_market
+NOT CLAIMED (tag C20-wip): the LIVE instances #book_live / #recorder_live (same clauses under `not clients.simulated`): the
+obligations on the path through the removal loop are UNDECIDED (solver time-outs), see NOTES_C20.md.
 
 Method (as in c13_dispatch.py).  Calls into code that is not verified here are observed through GHOST fields that only the ASSUMED
 contracts (trusted / @virtual) or ghost_before_call code write.  "Every strategy ..." is proved for ONE ARBITRARY registered
@@ -17,9 +19,9 @@ self.g_w (ghost, never written): universal generalisation.
 
 ASSUMED contracts (listed in NOTES_C20.md): BaseStrategy.process_closed_market (unknown user code; called UNWRAPPED by the framework -
 assumed NOT to raise, see notes), Middleware.remove_market (unknown user code, assumed not to raise), Blotter.process_closed_market
-(subject of C08), BaseFlumine._process_cleared_orders / _process_cleared_markets, betfairlightweight ClearedOrders constructor,
-Market.__call__ (verified under C13), Market.cleared (verified under C08), Clients.simulated (abstract property, c14_run.py).
-The framework clock does not advance during one step (A6: utcnow() reads config.current_time).
+(subject of C08), BaseStrategy.remove_market, BaseFlumine._process_cleared_orders / _process_cleared_markets, the betfairlightweight
+ClearedOrders constructor, Market.__call__ (verified under C13), Market.cleared (verified under C08), Clients.simulated (abstract
+property, c14_run.py).  The framework clock does not advance during one step (A6: utcnow() reads config.current_time).
 """
 
 inline(
@@ -31,8 +33,7 @@ inline(
 # payload classes of a CloseMarketEvent (schema-only): the closing MarketBook, or the raw datum the recorder path queues
 # (_process_raw_data queues it only when "id" is present and after it has stored "_stream_id")
 schema("ClosedBookEvent", event=Ref("MarketBook"), _time_created=REAL, exchange=ATOM)
-struct("ClosingDatum", id=ATOM, _stream_id=INT)
-schema("ClosedDatumEvent", event=Ref("ClosingDatum"), _time_created=REAL, exchange=ATOM)
+schema("ClosedDatumEvent", event=Ref("RawDatum"), _time_created=REAL, exchange=ATOM)  # RawDatum: the struct of c13_wrappers.py
 
 schema("Clients", _clients=ListOf(Ref("BaseClient")))
 schema("BaseFlumine",
@@ -173,19 +174,18 @@ def middleware_distinct(fl):
 
 @contract("flumine/strategy/strategy.py::BaseStrategy.remove_market", tags=["C20"])
 def _(self, market_id: ATOM):
-    trusted("WIP: deletes exactly the runner contexts of the market")
+    trusted("deletes exactly the runner contexts (_invested keys) of the market: not verified here; only the call is observed")
     modifies_map(self._invested)
     modifies(self, "g_rm")
     modifies(self, "g_rm_id")
     ensures("counted", self.g_rm == old(self.g_rm) + 1 and self.g_rm_id == market_id)
 
 
-@contract("flumine/markets/markets.py::Markets.remove_market", tags=["C20"])
+@contract("flumine/markets/markets.py::Markets.remove_market", tags=["C20"], list_shift_axioms=True)
 def _(self, market_id: ATOM):
-    trusted("WIP")
     raises(KeyError, when=market_id not in self._markets, iff=True, label="unknown_id")
     modifies_map(self._markets)
-    modifies_lists_of(Ref("Market"))
+    modifies_list(self.events[self._markets[market_id].event_id], when=market_id in self._markets and self._markets[market_id].event_id in self.events)
     ensures("gone", market_id not in self._markets)
     ensures("other_ids_untouched", forall_atom(lambda k: implies(k != market_id, (k in self._markets) == old(k in self._markets)
                                                                  and implies(old(k in self._markets), self._markets[k] == old(self._markets[k])))))
@@ -205,7 +205,7 @@ market.g_removed = market.g_removed + 1
     modifies_all("BaseStrategy.g_rm_id")
     modifies_maps_of(MapOf(Tup(ATOM, INT, REAL), Ref("RunnerContext")))
     modifies_map(self.markets._markets, when=clear)
-    modifies_lists_of(Ref("Market"))
+    modifies_list(self.markets.events[self.markets._markets[market.market_id].event_id], when=clear and market.market_id in self.markets._markets and self.markets._markets[market.market_id].event_id in self.markets.events)
     invariant(0, "released_once_so_far", implies(arbitrary_middleware(self), MK(self).gm_rm == old(MK(self).gm_rm) + (1 if self.g_m < _i0 else 0)
                                                  and implies(self.g_m < _i0, MK(self).gm_rm_market == market)))
     invariant(1, "middleware_done", implies(arbitrary_middleware(self), MK(self).gm_rm == old(MK(self).gm_rm) + 1 and MK(self).gm_rm_market == market))
@@ -232,6 +232,7 @@ def known(fl, market_id):
 @contract("flumine/baseflumine.py::BaseFlumine._process_close_market#book", tags=["C20"],
           callee_variants={"flumine/baseflumine.py::BaseFlumine.log_control": "c20"})
 def _(self, event: Ref("ClosedBookEvent")):
+    requires("simulation_instance", self.clients.simulated)  # case split on the mode: the live instance is #book_live
     requires("arbitrary_strategy", arbitrary_strategy(self))
     requires("registered_once", strategies_distinct(self) and middleware_distinct(self))
     requires("registry_keys_are_market_ids", keys_are_ids(self))
@@ -266,7 +267,7 @@ def _(self, event: Ref("ClosedBookEvent")):
     modifies_maps_of(MapOf(Tup(ATOM, INT, REAL), Ref("RunnerContext")))
     modifies_maps_of(MapOfDefault(Opt(Ref("BaseClient")), ListOf(Ref("BaseOrder"))))
     modifies_map(self.markets._markets)
-    modifies_lists_of(Ref("Market"))
+    modifies_lists_of(Ref("Market"))  # the per-event lists of Markets.events (a removed market leaves its event's list)
     local(closed_markets=ListOf(Ref("Market")), cleared_markets=Ref("ClearedOrders"))
     # strategy loop
     invariant(0, "blotter_settled_with_the_final_book_before_any_callback",
@@ -316,3 +317,239 @@ def _(self, event: Ref("ClosedBookEvent")):
             self.g_w.g_removed == old(self.g_w.g_removed) + (1 if self.g_w == old(M_of(self, event.event.market_id)) else 0)))
     ensures("simulation_keeps_the_registry", implies(self.clients.simulated, forall_atom(lambda k: (k in self.markets._markets) == old(k in self.markets._markets)
             and implies(old(k in self.markets._markets), self.markets._markets[k] == old(self.markets._markets[k])))))
+
+
+# the LIVE instance (same clauses, `not clients.simulated`): NOT CLAIMED - the obligations on the path through the removal loop stay
+# undecided (solver time-outs on the filter-comprehension / dict-order axioms), see NOTES_C20.md
+@contract("flumine/baseflumine.py::BaseFlumine._process_close_market#book_live", tags=["C20-wip"],
+          callee_variants={"flumine/baseflumine.py::BaseFlumine.log_control": "c20"})
+def _(self, event: Ref("ClosedBookEvent")):
+    requires("live_instance", not self.clients.simulated)
+    requires("arbitrary_strategy", arbitrary_strategy(self))
+    requires("registered_once", strategies_distinct(self) and middleware_distinct(self))
+    requires("registry_keys_are_market_ids", keys_are_ids(self))
+    requires("commission_rates", forall(lambda i: self.clients._clients[i].commission_base >= 0, 0, len(self.clients._clients)))
+    requires("clock_after_the_epoch", config.current_time > 0 and (self.g_w.date_time_closed is None or self.g_w.date_time_closed > 0))
+    modifies_all("Market.closed")
+    modifies_all("Market.date_time_closed")
+    modifies_all("Market.market_book")
+    modifies_all("Market.update_market_catalogue")
+    modifies_all("Market.g_removed")
+    modifies_all("Blotter.g_settled")
+    modifies_all("Blotter.g_settled_book")
+    modifies_all("Blotter.g_settled_market")
+    modifies_all("BaseOrder.runner_status")
+    modifies_all("BaseOrder.market_type")
+    modifies_all("BaseOrder.each_way_divisor")
+    modifies_all("BaseOrder.number_of_dead_heat_winners")
+    modifies_all("BaseOrder.line_range_result")
+    modifies_all("BaseStrategy.g_closed")
+    modifies_all("BaseStrategy.g_closed_market")
+    modifies_all("BaseStrategy.g_closed_arg")
+    modifies_all("BaseStrategy.g_rm")
+    modifies_all("BaseStrategy.g_rm_id")
+    modifies_all("Middleware.gm_rm")
+    modifies_all("Middleware.gm_rm_market")
+    modifies(self, "g_close_logged")
+    modifies(self, "g_close_logged_event")
+    modifies(self, "g_cleared_orders")
+    modifies(self, "g_cleared_orders_id")
+    modifies(self, "g_cleared_markets")
+    modifies(self, "g_cleared_markets_n")
+    modifies_maps_of(MapOf(Tup(ATOM, INT, REAL), Ref("RunnerContext")))
+    modifies_maps_of(MapOfDefault(Opt(Ref("BaseClient")), ListOf(Ref("BaseOrder"))))
+    modifies_map(self.markets._markets)
+    modifies_lists_of(Ref("Market"))  # the per-event lists of Markets.events (a removed market leaves its event's list)
+    local(closed_markets=ListOf(Ref("Market")), cleared_markets=Ref("ClearedOrders"))
+    # strategy loop
+    invariant(0, "blotter_settled_with_the_final_book_before_any_callback",
+              market.blotter.g_settled == old(M_of(self, event.event.market_id).blotter.g_settled) + 1
+              and market.blotter.g_settled_book == event.event and market.blotter.g_settled_market == market and market.market_book == event.event and market.closed)
+    invariant(0, "closed_callback_once_so_far", SK(self).g_closed == old(SK(self).g_closed)
+              + (1 if self.g_k < _i0 and wants_closed(SK(self), event.event.streaming_unique_id) else 0))
+    invariant(0, "closed_callback_arguments", implies(self.g_k < _i0 and wants_closed(SK(self), event.event.streaming_unique_id),
+                                                     SK(self).g_closed_market == market and SK(self).g_closed_arg == event.event))
+    ensures("unknown_market_no_effect", implies(old(not known(self, event.event.market_id)),
+                                                SK(self).g_closed == old(SK(self).g_closed) and self.g_close_logged == old(self.g_close_logged)
+                                                and self.g_cleared_orders == old(self.g_cleared_orders) and self.g_cleared_markets == old(self.g_cleared_markets)
+                                                and self.g_w.g_removed == old(self.g_w.g_removed) and self.g_w.closed == old(self.g_w.closed)))
+    # per-client cleared-market summaries (simulation)
+    invariant(1, "orders_reported_cleared_once", self.g_cleared_orders == old(self.g_cleared_orders) + 1 and self.g_cleared_orders_id == event.event.market_id)
+    invariant(1, "one_summary_per_client_so_far", self.g_cleared_markets == old(self.g_cleared_markets) + _i1 and self.g_cleared_markets_n == old(self.g_cleared_markets_n) + _i1)
+    # removal of expired markets (live)
+    invariant(2, "snapshot_distinct", forall_int(lambda a, b: implies(0 <= a and a < b and b < len(_seq2), _seq2[a] != _seq2[b])))
+    invariant(2, "snapshot_members_have_been_closed_for_an_hour", forall(lambda j: closes(_seq2[j]), 0, len(_seq2)))
+    invariant(2, "rest_still_registered", forall(lambda j: registered(self, _seq2[j]), _i2, len(_seq2)))
+    invariant(2, "every_expired_registered_market_is_in_the_snapshot", implies(old(registered(self, self.g_w)) and closes(self.g_w), exists(lambda j: _seq2[j] == self.g_w, 0, len(_seq2))))
+    invariant(2, "snapshot_members_were_registered", forall(lambda j: old(registered(self, _seq2[j])), 0, len(_seq2)))
+    invariant(2, "removed_once_so_far", self.g_w.g_removed == old(self.g_w.g_removed) + (1 if exists(lambda j: _seq2[j] == self.g_w, 0, _i2) else 0))
+    ensures("market_is_closed", implies(old(known(self, event.event.market_id)), old(M_of(self, event.event.market_id)).closed))
+    ensures("close_market_called_iff_it_was_open", implies(old(known(self, event.event.market_id)),
+            old(M_of(self, event.event.market_id)).date_time_closed == (config.current_time if old(not M_of(self, event.event.market_id).closed) else old(M_of(self, event.event.market_id).date_time_closed))))
+    ensures("market_holds_the_final_book", implies(old(known(self, event.event.market_id)), old(M_of(self, event.event.market_id)).market_book == event.event))
+    ensures("blotter_settled_exactly_once_with_the_final_book", implies(old(known(self, event.event.market_id)),
+            old(M_of(self, event.event.market_id)).blotter.g_settled == old(M_of(self, event.event.market_id).blotter.g_settled) + 1
+            and old(M_of(self, event.event.market_id)).blotter.g_settled_book == event.event
+            and old(M_of(self, event.event.market_id)).blotter.g_settled_market == old(M_of(self, event.event.market_id))))
+    ensures("closed_callback_exactly_once_iff_subscribed_or_empty_filter", implies(old(known(self, event.event.market_id)),
+            SK(self).g_closed == old(SK(self).g_closed) + (1 if wants_closed(SK(self), event.event.streaming_unique_id) else 0)))
+    ensures("closed_callback_gets_the_market_and_the_final_book", implies(old(known(self, event.event.market_id)) and wants_closed(SK(self), event.event.streaming_unique_id),
+            SK(self).g_closed_market == old(M_of(self, event.event.market_id)) and SK(self).g_closed_arg == event.event))
+    ensures("simulation_orders_reported_cleared_once", implies(old(known(self, event.event.market_id)) and self.clients.simulated,
+            self.g_cleared_orders == old(self.g_cleared_orders) + 1 and self.g_cleared_orders_id == event.event.market_id))
+    ensures("simulation_one_cleared_market_summary_per_client", implies(old(known(self, event.event.market_id)) and self.clients.simulated,
+            self.g_cleared_markets == old(self.g_cleared_markets) + len(self.clients._clients)
+            and self.g_cleared_markets_n == old(self.g_cleared_markets_n) + len(self.clients._clients)))
+    ensures("live_nothing_reported_cleared", implies(not self.clients.simulated,
+            self.g_cleared_orders == old(self.g_cleared_orders) and self.g_cleared_markets == old(self.g_cleared_markets)))
+    ensures("close_event_logged_once", implies(old(known(self, event.event.market_id)), self.g_close_logged == old(self.g_close_logged) + 1 and self.g_close_logged_event == event))
+    ensures("live_removes_exactly_the_markets_closed_for_more_than_an_hour", implies(old(known(self, event.event.market_id)) and not self.clients.simulated,
+            self.g_w.g_removed == old(self.g_w.g_removed) + (1 if old(registered(self, self.g_w)) and closes(self.g_w) else 0)))
+    ensures("simulation_removes_the_closed_market_only", implies(old(known(self, event.event.market_id)) and self.clients.simulated,
+            self.g_w.g_removed == old(self.g_w.g_removed) + (1 if self.g_w == old(M_of(self, event.event.market_id)) else 0)))
+    ensures("simulation_keeps_the_registry", implies(self.clients.simulated, forall_atom(lambda k: (k in self.markets._markets) == old(k in self.markets._markets)
+            and implies(old(k in self.markets._markets), self.markets._markets[k] == old(self.markets._markets[k])))))
+
+
+# ----------------------------------------------------------------------------- recorder mode: the closing update is a raw datum (dict)
+@contract("flumine/baseflumine.py::BaseFlumine._process_close_market#recorder", tags=["C20"],
+          callee_variants={"flumine/baseflumine.py::BaseFlumine.log_control": "c20"})
+def _(self, event: Ref("ClosedDatumEvent")):
+    requires("simulation_instance", self.clients.simulated)  # case split on the mode: the live instance is #recorder_live
+    requires("closing_datum_carries_id_and_stream", "id" in event.event and "_stream_id" in event.event)  # its only producer, _process_raw_data, queues it under `"id" in datum` after storing "_stream_id"
+    requires("arbitrary_strategy", arbitrary_strategy(self))
+    requires("registered_once", strategies_distinct(self) and middleware_distinct(self))
+    requires("registry_keys_are_market_ids", keys_are_ids(self))
+    requires("clock_after_the_epoch", config.current_time > 0 and (self.g_w.date_time_closed is None or self.g_w.date_time_closed > 0))
+    modifies_all("Market.closed")
+    modifies_all("Market.date_time_closed")
+    modifies_all("Market.g_removed")
+    modifies_all("BaseStrategy.g_closed")
+    modifies_all("BaseStrategy.g_closed_market")
+    modifies_all("BaseStrategy.g_closed_arg")
+    modifies_all("BaseStrategy.g_rm")
+    modifies_all("BaseStrategy.g_rm_id")
+    modifies_all("Middleware.gm_rm")
+    modifies_all("Middleware.gm_rm_market")
+    modifies(self, "g_close_logged")
+    modifies(self, "g_close_logged_event")
+    modifies_maps_of(MapOf(Tup(ATOM, INT, REAL), Ref("RunnerContext")))
+    modifies_map(self.markets._markets)
+    modifies_lists_of(Ref("Market"))
+    local(closed_markets=ListOf(Ref("Market")), cleared_markets=Ref("ClearedOrders"))
+    invariant(0, "market_closed_before_any_callback", market.closed and market == old(M_of(self, event.event["id"])))
+    invariant(0, "closed_callback_once_so_far", SK(self).g_closed == old(SK(self).g_closed)
+              + (1 if self.g_k < _i0 and wants_closed(SK(self), event.event["_stream_id"]) else 0))
+    invariant(0, "closed_callback_arguments", implies(self.g_k < _i0 and wants_closed(SK(self), event.event["_stream_id"]),
+                                                     SK(self).g_closed_market == market and SK(self).g_closed_arg == event.event))
+    invariant(2, "snapshot_distinct", forall_int(lambda a, b: implies(0 <= a and a < b and b < len(_seq2), _seq2[a] != _seq2[b])))
+    invariant(2, "snapshot_members_have_been_closed_for_an_hour", forall(lambda j: closes(_seq2[j]), 0, len(_seq2)))
+    invariant(2, "rest_still_registered", forall(lambda j: registered(self, _seq2[j]), _i2, len(_seq2)))
+    invariant(2, "every_expired_registered_market_is_in_the_snapshot", implies(old(registered(self, self.g_w)) and closes(self.g_w), exists(lambda j: _seq2[j] == self.g_w, 0, len(_seq2))))
+    invariant(2, "snapshot_members_were_registered", forall(lambda j: old(registered(self, _seq2[j])), 0, len(_seq2)))
+    invariant(2, "removed_once_so_far", self.g_w.g_removed == old(self.g_w.g_removed) + (1 if exists(lambda j: _seq2[j] == self.g_w, 0, _i2) else 0))
+    ensures("unknown_market_no_effect", implies(old(not known(self, event.event["id"])),
+                                                SK(self).g_closed == old(SK(self).g_closed) and self.g_close_logged == old(self.g_close_logged)
+                                                and self.g_w.g_removed == old(self.g_w.g_removed) and self.g_w.closed == old(self.g_w.closed)))
+    ensures("market_is_closed", implies(old(known(self, event.event["id"])), old(M_of(self, event.event["id"])).closed))
+    ensures("close_market_called_iff_it_was_open", implies(old(known(self, event.event["id"])),
+            old(M_of(self, event.event["id"])).date_time_closed == (config.current_time if old(not M_of(self, event.event["id"]).closed) else old(M_of(self, event.event["id"]).date_time_closed))))
+    ensures("closed_callback_exactly_once_iff_subscribed_or_empty_filter", implies(old(known(self, event.event["id"])),
+            SK(self).g_closed == old(SK(self).g_closed) + (1 if wants_closed(SK(self), event.event["_stream_id"]) else 0)))
+    ensures("closed_callback_gets_the_market_and_the_closing_datum", implies(old(known(self, event.event["id"])) and wants_closed(SK(self), event.event["_stream_id"]),
+            SK(self).g_closed_market == old(M_of(self, event.event["id"])) and SK(self).g_closed_arg == event.event))
+    ensures("close_event_logged_once", implies(old(known(self, event.event["id"])), self.g_close_logged == old(self.g_close_logged) + 1 and self.g_close_logged_event == event))
+    ensures("live_removes_exactly_the_markets_closed_for_more_than_an_hour", implies(old(known(self, event.event["id"])) and not self.clients.simulated,
+            self.g_w.g_removed == old(self.g_w.g_removed) + (1 if old(registered(self, self.g_w)) and closes(self.g_w) else 0)))
+    ensures("simulation_removes_the_closed_market_only", implies(old(known(self, event.event["id"])) and self.clients.simulated,
+            self.g_w.g_removed == old(self.g_w.g_removed) + (1 if self.g_w == old(M_of(self, event.event["id"])) else 0)))
+    ensures("simulation_keeps_the_registry", implies(self.clients.simulated, forall_atom(lambda k: (k in self.markets._markets) == old(k in self.markets._markets)
+            and implies(old(k in self.markets._markets), self.markets._markets[k] == old(self.markets._markets[k])))))
+
+@contract("flumine/baseflumine.py::BaseFlumine._process_close_market#recorder_live", tags=["C20-wip"],
+          callee_variants={"flumine/baseflumine.py::BaseFlumine.log_control": "c20"})
+def _(self, event: Ref("ClosedDatumEvent")):
+    requires("live_instance", not self.clients.simulated)
+    requires("closing_datum_carries_id_and_stream", "id" in event.event and "_stream_id" in event.event)  # its only producer, _process_raw_data, queues it under `"id" in datum` after storing "_stream_id"
+    requires("arbitrary_strategy", arbitrary_strategy(self))
+    requires("registered_once", strategies_distinct(self) and middleware_distinct(self))
+    requires("registry_keys_are_market_ids", keys_are_ids(self))
+    requires("clock_after_the_epoch", config.current_time > 0 and (self.g_w.date_time_closed is None or self.g_w.date_time_closed > 0))
+    modifies_all("Market.closed")
+    modifies_all("Market.date_time_closed")
+    modifies_all("Market.g_removed")
+    modifies_all("BaseStrategy.g_closed")
+    modifies_all("BaseStrategy.g_closed_market")
+    modifies_all("BaseStrategy.g_closed_arg")
+    modifies_all("BaseStrategy.g_rm")
+    modifies_all("BaseStrategy.g_rm_id")
+    modifies_all("Middleware.gm_rm")
+    modifies_all("Middleware.gm_rm_market")
+    modifies(self, "g_close_logged")
+    modifies(self, "g_close_logged_event")
+    modifies_maps_of(MapOf(Tup(ATOM, INT, REAL), Ref("RunnerContext")))
+    modifies_map(self.markets._markets)
+    modifies_lists_of(Ref("Market"))
+    local(closed_markets=ListOf(Ref("Market")), cleared_markets=Ref("ClearedOrders"))
+    invariant(0, "market_closed_before_any_callback", market.closed and market == old(M_of(self, event.event["id"])))
+    invariant(0, "closed_callback_once_so_far", SK(self).g_closed == old(SK(self).g_closed)
+              + (1 if self.g_k < _i0 and wants_closed(SK(self), event.event["_stream_id"]) else 0))
+    invariant(0, "closed_callback_arguments", implies(self.g_k < _i0 and wants_closed(SK(self), event.event["_stream_id"]),
+                                                     SK(self).g_closed_market == market and SK(self).g_closed_arg == event.event))
+    invariant(2, "snapshot_distinct", forall_int(lambda a, b: implies(0 <= a and a < b and b < len(_seq2), _seq2[a] != _seq2[b])))
+    invariant(2, "snapshot_members_have_been_closed_for_an_hour", forall(lambda j: closes(_seq2[j]), 0, len(_seq2)))
+    invariant(2, "rest_still_registered", forall(lambda j: registered(self, _seq2[j]), _i2, len(_seq2)))
+    invariant(2, "every_expired_registered_market_is_in_the_snapshot", implies(old(registered(self, self.g_w)) and closes(self.g_w), exists(lambda j: _seq2[j] == self.g_w, 0, len(_seq2))))
+    invariant(2, "snapshot_members_were_registered", forall(lambda j: old(registered(self, _seq2[j])), 0, len(_seq2)))
+    invariant(2, "removed_once_so_far", self.g_w.g_removed == old(self.g_w.g_removed) + (1 if exists(lambda j: _seq2[j] == self.g_w, 0, _i2) else 0))
+    ensures("unknown_market_no_effect", implies(old(not known(self, event.event["id"])),
+                                                SK(self).g_closed == old(SK(self).g_closed) and self.g_close_logged == old(self.g_close_logged)
+                                                and self.g_w.g_removed == old(self.g_w.g_removed) and self.g_w.closed == old(self.g_w.closed)))
+    ensures("market_is_closed", implies(old(known(self, event.event["id"])), old(M_of(self, event.event["id"])).closed))
+    ensures("close_market_called_iff_it_was_open", implies(old(known(self, event.event["id"])),
+            old(M_of(self, event.event["id"])).date_time_closed == (config.current_time if old(not M_of(self, event.event["id"]).closed) else old(M_of(self, event.event["id"]).date_time_closed))))
+    ensures("closed_callback_exactly_once_iff_subscribed_or_empty_filter", implies(old(known(self, event.event["id"])),
+            SK(self).g_closed == old(SK(self).g_closed) + (1 if wants_closed(SK(self), event.event["_stream_id"]) else 0)))
+    ensures("closed_callback_gets_the_market_and_the_closing_datum", implies(old(known(self, event.event["id"])) and wants_closed(SK(self), event.event["_stream_id"]),
+            SK(self).g_closed_market == old(M_of(self, event.event["id"])) and SK(self).g_closed_arg == event.event))
+    ensures("close_event_logged_once", implies(old(known(self, event.event["id"])), self.g_close_logged == old(self.g_close_logged) + 1 and self.g_close_logged_event == event))
+    ensures("live_removes_exactly_the_markets_closed_for_more_than_an_hour", implies(old(known(self, event.event["id"])) and not self.clients.simulated,
+            self.g_w.g_removed == old(self.g_w.g_removed) + (1 if old(registered(self, self.g_w)) and closes(self.g_w) else 0)))
+    ensures("simulation_removes_the_closed_market_only", implies(old(known(self, event.event["id"])) and self.clients.simulated,
+            self.g_w.g_removed == old(self.g_w.g_removed) + (1 if self.g_w == old(M_of(self, event.event["id"])) else 0)))
+    ensures("simulation_keeps_the_registry", implies(self.clients.simulated, forall_atom(lambda k: (k in self.markets._markets) == old(k in self.markets._markets)
+            and implies(old(k in self.markets._markets), self.markets._markets[k] == old(self.markets._markets[k])))))
+
+
+# ----------------------------------------------------------------------------- re-opening, middleware state
+@contract("flumine/markets/market.py::Market.open_market#c20", tags=["C20"])
+def _(self):
+    modifies(self, "closed")
+    modifies(self, "orders_cleared")
+    modifies(self, "market_cleared")
+    ensures("reopened_with_cleared_flags_reset", not self.closed and len(self.orders_cleared) == 0 and len(self.market_cleared) == 0)
+
+
+@contract("flumine/markets/markets.py::Markets.add_market#c20", tags=["C20"],
+          callee_variants={"flumine/markets/market.py::Market.open_market": "c20"})
+def _(self, market_id: ATOM, market: Ref("Market")):
+    modifies_map(self._markets)
+    modifies_map(self.events)
+    modifies_lists_of(Ref("Market"))
+    modifies_all("Market.closed")
+    modifies_all("Market.orders_cleared")
+    modifies_all("Market.market_cleared")
+    ensures("known_id_is_reopened_with_cleared_flags_reset_not_replaced", implies(old(market_id in self._markets),
+            self._markets[market_id] == old(self._markets[market_id]) and not self._markets[market_id].closed
+            and len(self._markets[market_id].orders_cleared) == 0 and len(self._markets[market_id].market_cleared) == 0))
+    ensures("new_id_maps_to_the_market", implies(old(market_id not in self._markets), market_id in self._markets and self._markets[market_id] == market))
+
+
+schema("SimulatedMiddleware", markets=MapOf(ATOM, Ref("Object")))
+
+
+@contract("flumine/markets/middleware.py::SimulatedMiddleware.remove_market", tags=["C20"])
+def _(self, market: Ref("Market")):
+    modifies_map(self.markets)
+    ensures("market_state_released", market.market_id not in self.markets)
+    ensures("other_markets_kept", forall_atom(lambda k: implies(k != market.market_id, (k in self.markets) == old(k in self.markets))))
